@@ -159,6 +159,56 @@ type compiler struct {''')])]),
 		// nothing lies strictly between
 		return &ranger{done: true}
 	}""")])]),
+ ("tagend-reordered", [("lexer/lexer.go", [(
+"""		if l.peekChar() == '>' {
+			l.inside = false
+			l.readChar()
+			tok = token.Token{Type: token.E_END, Literal: "%>", LineNumber: line}
+			break
+		}
+		tok = l.newToken(token.ILLEGAL)""",
+"""		if l.peekChar() != '>' {
+			tok = l.newToken(token.ILLEGAL)
+			break
+		}
+		tok = token.Token{Type: token.E_END, Literal: "%>", LineNumber: line}
+		l.readChar()
+		l.inside = false""")])]),
+ ("mapkey-one-condition", [("compiler.go", [(
+"""		if !kv.IsValid() || !kv.Type().AssignableTo(mapKeyType) {
+			err = fmt.Errorf("cannot use %v (%s constant) as %s value in map index", index, kv.Kind().String(), mapKeyType.Kind().String())
+			return nil, err
+		}
+		if !kv.Comparable() {
+			return nil, fmt.Errorf("cannot use %v (%T) as a map key: the value is not hashable", index, index)
+		}
+""",
+"""		if !kv.IsValid() || !kv.Type().AssignableTo(mapKeyType) || !kv.Comparable() {
+			err = fmt.Errorf("cannot use %v (%s constant) as %s value in map index", index, kv.Kind().String(), mapKeyType.Kind().String())
+			return nil, err
+		}
+""")])]),
+ ("runscript-named-child", [("plush.go", [(
+"""	ctx = ctx.New()
+	ctx.Set("print", func(i interface{}) {
+		fmt.Print(i)
+	})
+	ctx.Set("println", func(i interface{}) {
+		fmt.Println(i)
+	})
+
+	_, err := Render(input, ctx)
+	return err""",
+"""	child := ctx.New()
+	child.Set("println", func(i interface{}) {
+		fmt.Println(i)
+	})
+	child.Set("print", func(i interface{}) {
+		fmt.Print(i)
+	})
+
+	_, err := Render(input, child)
+	return err""")])]),
 ]
 def main():
     out='/verif/selftest/harmless'
